@@ -119,6 +119,18 @@ func frameOffsets(b []byte) []int {
 
 var hostileLens = []uint32{0, 1, 7, 8, 9, 1<<26 - 1, 1 << 26, 1<<26 + 1, 1 << 31, 1<<32 - 1, 1<<32 - 8, 0x7fffffff, 65536, 65528}
 
+// hostileWord builds an 8-byte frame header from v: type in {0..4, 0xff}, reserved bytes zero
+// (mostly) or not, length one of hostileLens.
+func hostileWord(v uint32) []byte {
+	w := make([]byte, 8)
+	w[0] = []byte{0, 1, 2, 3, 4, 0xff, 2, 2}[v%8]
+	if (v>>3)%4 == 0 {
+		w[1+(v>>5)%3] = byte(v >> 8)
+	}
+	binary.LittleEndian.PutUint32(w[4:], hostileLens[int(v>>12)%len(hostileLens)])
+	return w
+}
+
 // damageInfo records facts about the applied mutations needed by the oracle.
 type damageInfo struct {
 	sealedBroken []string // sealed segment files removed / truncated below the header / given a foreign header
@@ -196,6 +208,26 @@ func apply(fs *simfs.FS, muts []Mut) damageInfo {
 			if len(fo) > 0 {
 				o := fo[pick(len(fo))]
 				b[o] = byte(m.Val % 5)
+			}
+		case "hdrword":
+			// a whole frame header replaced by a hostile word: any type byte with any hostile length
+			if len(fo) > 0 {
+				o := fo[pick(len(fo))]
+				copy(b[o:o+8], hostileWord(m.Val))
+			}
+		case "tailword":
+			// hostile words right behind the last frame of the file (where a tail keeps stale bytes)
+			if len(fo) > 0 {
+				last := fo[len(fo)-1]
+				end := last + 8
+				if b[last] != segment.FrameCommit {
+					ln := int(binary.LittleEndian.Uint32(b[last+4:]))
+					end = last + 8 + (ln+7)/8*8
+				}
+				for k := 0; k < 1+m.Len%3 && end+8 <= len(b); k++ {
+					copy(b[end:end+8], hostileWord(m.Val+uint32(k)*7919))
+					end += 8
+				}
 			}
 		case "zero":
 			o := pick(usedLen(b))
